@@ -34,6 +34,23 @@ def lat(s):
     return s.encode('latin-1')
 
 
+def has_lb(s):
+    return '\r' in s or '\n' in s
+
+
+def hostile_linebreak(case, obs=None):
+    """mirror of Spec.C14.hostile_linebreak: the input class of the open finding C14-F1"""
+    for p in case['ports']:
+        if 'str' in p and has_lb(p['str']):
+            return True
+        if 'pair' in p and isinstance(p['pair'][1], str) and has_lb(p['pair'][1]):
+            return True
+    for nm, tok in case['auth'] or []:
+        if has_lb(nm) or (tok is not None and has_lb(tok)):
+            return True
+    return False
+
+
 class P(core.Prop):
     pid = 'C14'
     check_mod = 'Check.C14'
@@ -264,7 +281,7 @@ class P(core.Prop):
                     es.append(C('ESnap', Opt(None if e[1] is None else B(bytes.fromhex(e[1]))), ks,
                                 L(Pair(B(bytes.fromhex(a)), B(bytes.fromhex(b))) for a, b in e[3])))
             tr.append(L(es))
-        return Rec(k_q=q, k_reply=rp, k_obs=L(tr))
+        return Rec(k_q=q, k_reply=rp, k_obs=L(tr), k_hostile=Bool(hostile_linebreak(case)))
 
     # ------------------------------------------------------------------ evidence labels
     def _keyform(self, case):
@@ -424,6 +441,20 @@ class P(core.Prop):
             ports = [self._good_port(rng, rng.choice(forms)) for _ in range(rng.choice([1, 1, 2, 3]))]
             if rng.random() < 0.2:
                 ports.insert(rng.randrange(len(ports) + 1), self._bad_port(rng))
+            if rng.random() < 0.04:
+                # the class of the open finding C14-F1: a line break in a name, a token or a mapping text
+                brk = rng.choice(['\r\n', '\n', '\r']) + rng.choice(['', 'QUIT', 'x'])
+                where = rng.choice(['name', 'token', 'str', 'pair'])
+                if where in ('name', 'token') and not auth:
+                    auth = self._auth(rng, [True, False])
+                if where == 'name':
+                    auth[0][0] = auth[0][0][:8] + brk
+                elif where == 'token':
+                    auth[0][1] = (auth[0][1] or 'tok') + brk
+                elif where == 'str':
+                    ports[0] = {'str': self._good_port(rng, rng.choice(['str_ip', 'str_unix']))['str'] + brk}
+                else:
+                    ports[0] = {'pair': [80, rng.choice(['127.0.0.1:80', 'unix:/run/x']) + brk]}
             variant = rng.choice(['ok', 'ok', 'ok', 'err', 'nosid', 'nopk', 'leaky', 'echo', 'extra', 'shuffled'])
             out.append(self._case(rng, version, keyform, rng.random() < 0.5, rng.random() < 0.3, auth, ports, variant))
         return out
@@ -455,7 +486,7 @@ class P(core.Prop):
         if case['entry'] == 'tor':
             yield dict(case, entry='eph')
 
-    finding_preds = {}
+    finding_preds = {'hostile_linebreak': hostile_linebreak}
 
 
 PROP = P()
